@@ -117,3 +117,45 @@ CHECKS["C13"] = dict(
     assumptions=_E1_ASSUME[:2] + ["known finding C13-late-write-accepted (writes through ended handles return nil and leak to ReadUncommitted readers): while it is listed as open, exactly that behaviour is excused and counted; everything else about late ops stays a violation"],
     parts=[P("seq", "seq", "TestC13", dict(checks=160, shards=8, timeout=900), dict(checks=6000, shards=16, timeout=3000))],
 )
+
+CHECKS["C14"] = dict(
+    level="exploration",
+    rule=("fault-free rapid-generated histories of 5-80 steps (autocommit and transactional writes, deletes, multi-write transactions, commits, conflict-aborted commits, rollbacks, occasional collector runs) on 1-2 roots; then one of three endings: "
+          "(0) end all transactions, let background deletions drain, one collector pass; (1) end all transactions and Close at once with cleanup possibly pending, reopen, collector pass; (2) Close with transactions still open, reopen, collector pass. "
+          "Oracle: walk of the roots - the multiset of regular-file contents (sha256) equals exactly one file per key the reference model says is readable; polled until equal, verdict only after the tree was stable for 1.5 s (a leak never goes away). "
+          "non-trivial = the history contained an autocommit overwrite, a delete, a rollback, a conflict-aborted commit and a write superseded inside its transaction."),
+    assumptions=_E1_ASSUME + ["quiescence is detected by polling; the worker pool is the real one"],
+    parts=[P("seq", "seq", "TestC14", dict(checks=128, shards=8, timeout=900), dict(checks=4000, shards=16, timeout=3000))],
+)
+
+CHECKS["C17"] = dict(
+    level="exploration",
+    rule=("rapid-generated sequential histories of 2-14 steps over bursts of 30-130 small writes, deletion of whole bursts followed by a collector run, collector runs, reopen, single writes/deletes; 1-3 roots; configured directory limit from {0,1,99,100,101,150} (inline client clamps to >= 100). "
+          "Oracle: a walk of the roots after every step (and every 16 writes inside a burst): every entry of a root is a UUID-named directory, every content file sits directly inside one, after a successful write every root has >= 1 directory, no directory exceeds max(limit,100) entries; "
+          "after a burst deletion a directory that once reached the limit and regained room must receive one of the next 64*k writes (k = number of directories; miss probability < 2e-28). "
+          "non-trivial = some directory reached the limit and a root ended up with >= 2 directories (rotation)."),
+    assumptions=_E1_ASSUME + ["directory choice is a uniform shuffle over the active directories (math/rand/v2 PCG seeded by fs_db); the only probabilistic assertion is the reuse probe, bound stated in the rule"],
+    parts=[P("seq", "seq", "TestC17", dict(checks=48, shards=8, timeout=900), dict(checks=1500, shards=16, timeout=3000))],
+)
+
+CHECKS["C04"] = dict(
+    level="fault_enumeration",
+    rule=("rapid-generated workloads of 3-15 steps (autocommit Set/Delete, Begin, transactional writes, multi-key Commit, Rollback, collector runs, overwrites so the cleaner has work; 1-2 roots) run in a child process; "
+          "a hook counts persistent mutation points (file create/write/close/remove, mkdir, Badger set/delete/transaction before and after) across all goroutines and the child SIGKILLs itself at the n-th: EVERY n from 1 to the count of the uncrashed run (+2) is enumerated per workload; "
+          "for a sample of crash points every crash index inside the recovery open is enumerated on copies of the crashed directory. "
+          "Oracle: the parent knows the acknowledged prefix and the at most one in-flight step from the pipe; after a clean reopen GetKeys/Get of all keys must equal the model after the prefix, or after prefix + in-flight step (autocommit write or Commit: all keys together or none); every listed key readable and complete; a second reopen gives the same state. "
+          "one evaluation = one workload (counters give the number of child runs); non-trivial = some crash landed after the first step started and before the last was acknowledged."),
+    assumptions=["process kill only: the page cache survives (power loss / fsync ordering is outside the statement and cannot be injected here)",
+                 "crash positions are counted globally, so background cleaner mutations are crash points too; their interleaving is not controlled, the replay re-runs the same workload and index"],
+    parts=[P("crash", "seq", "TestC04", dict(checks=8, shards=8, timeout=900, shrinktime="30s"), dict(checks=320, shards=16, timeout=3400, shrinktime="60s"))],
+)
+
+CHECKS["C05"] = dict(
+    level="exploration",
+    rule=("rapid-generated histories of 2-4 segments of transactional/autocommit operations separated by Close/Open in the same process ('reopen') or by a fresh OS process ('newproc', half of the cases), "
+          "with 0-2 unrelated databases opened (and written) in the same process before the database under test and kept open; full read-back by every actor after every step and right after every open. "
+          "Oracle: reference model across reopen (committed state identical, open transactions gone, every later write supersedes earlier data immediately and after every later reopen). "
+          "non-trivial = an autocommit write after a reopen that is read after a further reopen, with >= 1 other database in the process."),
+    assumptions=_E1_ASSUME,
+    parts=[P("seq", "seq", "TestC05", dict(checks=64, shards=8, timeout=900), dict(checks=2000, shards=16, timeout=3000))],
+)
